@@ -5,15 +5,14 @@
 //!
 //! The worker evaluates the property's oracle on the real code:
 //!   * `from_str(&v.to_string()) == Ok(v)` and `from_str(s)?.to_string() == s` for `s = v.to_string()`,
-//!     for every value inside the property's domain (enumerations: all variants; records: tokens
-//!     non-empty and free of Unicode whitespace);
+//!     for every value inside the property's domain (enumerations: all variants; records: `canon_*`);
 //!   * a keyword type never accepts a text that is not the printed keyword of the variant returned
 //!     (a lower-casing `from_str` is tolerated only when the translator's table says the type
 //!     lower-cases its input);
 //!   * every (type, variant, keyword) row of the translator's table (harness/gen/enums.json) agrees
 //!     with the real `to_string` / `from_str`.
-//! Cases where the real code is known to break the property are excluded by the narrow triggers in
-//! `excluded_*` below (each one is a reported finding, not a loosened oracle).
+//! The record clauses are evaluated on the property's domain, given by the `canon_*` predicates below:
+//! each is the transcription of the `Canon…` hypothesis of the corresponding Lean theorem.
 use crate::util::*;
 use crate::Resp;
 use apt_sources::signature::Signature;
@@ -35,9 +34,9 @@ use std::sync::OnceLock;
 const ENUMS_JSON: &str = include_str!("../gen/enums.json");
 
 #[derive(Debug, Clone)]
-enum J {
+pub(crate) enum J {
     Null,
-    Bool(#[allow(unused)] bool),
+    Bool(bool),
     Num(#[allow(unused)] f64),
     Str(String),
     Arr(Vec<J>),
@@ -163,8 +162,15 @@ impl<'a> JP<'a> {
         }
     }
 }
+pub(crate) fn parse_json(text: &str) -> Result<J, String> {
+    JP { b: text.as_bytes(), i: 0 }.val()
+}
+
 impl J {
-    fn get(&self, k: &str) -> &J {
+    pub(crate) fn boolean(&self) -> bool {
+        matches!(self, J::Bool(true))
+    }
+    pub(crate) fn get(&self, k: &str) -> &J {
         if let J::Obj(o) = self {
             for (kk, v) in o {
                 if kk == k {
@@ -174,14 +180,14 @@ impl J {
         }
         &J::Null
     }
-    fn str(&self) -> Option<String> {
+    pub(crate) fn str(&self) -> Option<String> {
         if let J::Str(s) = self {
             Some(s.clone())
         } else {
             None
         }
     }
-    fn arr(&self) -> &[J] {
+    pub(crate) fn arr(&self) -> &[J] {
         if let J::Arr(a) = self {
             a
         } else {
@@ -422,45 +428,34 @@ fn enum_print(ty: &RealEnum, variant: &str) -> Resp {
 }
 
 // ------------------------------------------------------------------ domain of the record clauses
+//
+// Each `canon_*` predicate is the Rust transcription of the `Canon…` hypothesis of the Lean
+// round-trip theorem of that type (Props/C18.lean); every conjunct has a `C18_*_needs_*` witness
+// there showing that the text format cannot represent the value otherwise. They describe the
+// property's domain (which values have a text form of their own), nothing else.
 
-/// a token of the property's record domain: non-empty, free of Unicode whitespace
+/// Lean `Tok`: non-empty, free of Unicode whitespace
 fn tok(s: &str) -> bool {
     !s.is_empty() && !s.chars().any(|c| c.is_whitespace())
 }
-fn otok(s: &Option<String>) -> bool {
-    s.as_deref().map(tok).unwrap_or(true)
+fn nows(s: &str) -> bool {
+    !s.chars().any(|c| c.is_whitespace())
 }
 
-/// development aid: `VERIF_C18_NOEXCLUDE=1 harness worker` switches the exclusions off, so that every
-/// excluded case shows up as an oracle failure again (used to re-confirm the findings)
-fn excl_on() -> bool {
+/// debug aid only: `VERIF_C18_ALLVALUES=1 harness worker` evaluates the oracle on every value,
+/// also outside the domain (re-confirms the `_needs_` witnesses on the real code)
+fn dom(b: bool) -> bool {
     static T: OnceLock<bool> = OnceLock::new();
-    *T.get_or_init(|| std::env::var("VERIF_C18_NOEXCLUDE").is_err())
+    b || *T.get_or_init(|| std::env::var("VERIF_C18_ALLVALUES").is_ok())
 }
 
-// ---- exclusions: exact triggers of real-code behaviour that contradicts C18 (reported findings) ----
-
-/// F-C18-a  PackageListEntry: `part.split('=')` keeps only the first two pieces and Display joins
-/// with `=`, so a key or value containing `=` does not survive (fields.rs:330-339)
-fn excluded_ple_equals(e: &PackageListEntry) -> bool {
-    if !excl_on() {
-        return false;
-    }
-    e.extra.iter().any(|(k, v)| k.contains('=') || v.contains('='))
+/// `CanonPkgEntry`: package/type/section tokens; keys free of white space and `=`; values free of
+/// white space (the map itself is canonical by construction: `HashMap`)
+fn canon_ple(e: &PackageListEntry) -> bool {
+    tok(&e.package) && tok(&e.package_type) && tok(&e.section) && e.extra.iter().all(|(k, v)| nows(k) && !k.contains('=') && nows(v))
 }
-/// F-C18-b  PackageListEntry: Display iterates the HashMap (fields.rs:299); with two or more extra
-/// fields the order of the printed `k=v` pieces is unspecified and changes between instances
-fn excluded_ple_order(e: &PackageListEntry) -> bool {
-    if !excl_on() {
-        return false;
-    }
-    e.extra.len() >= 2
-}
-/// F-C18-c  ParsedVcs: the subpath is captured by ` \[([^] ]+)\]`, a subpath containing `]` is cut
-/// at its first `]` (vcs.rs:28); F-C18-d: a branch that itself looks like `[x]…` is taken for the
-/// subpath (leftmost match)
+/// `branchOK`: the branch does not itself read as ` [subpath]` — regex `^\[[^\] ]+\]`
 fn looks_bracketed(b: &str) -> bool {
-    // ^\[[^\] ]+\]
     let mut it = b.chars();
     if it.next() != Some('[') {
         return false;
@@ -477,50 +472,62 @@ fn looks_bracketed(b: &str) -> bool {
     }
     false
 }
-fn excluded_vcs(branch: &Option<String>, subpath: &Option<String>) -> bool {
-    if !excl_on() {
-        return false;
-    }
-    subpath.as_deref().map(|p| p.contains(']')).unwrap_or(false) || branch.as_deref().map(looks_bracketed).unwrap_or(false)
+/// `CanonVcs`: url token; branch token and `branchOK`; subpath token without `]`
+fn canon_parsed_vcs(url: &str, branch: &Option<String>, subpath: &Option<String>) -> bool {
+    tok(url)
+        && branch.as_deref().map(|b| tok(b) && !looks_bracketed(b)).unwrap_or(true)
+        && subpath.as_deref().map(|p| tok(p) && !p.contains(']')).unwrap_or(true)
 }
-/// F-C18-e  Origin / AppliedUpstream: `Other("commit:x")` prints `commit:x`, which parses as `Commit("x")`
-fn excluded_origin_other_commit(is_other: bool, s: &str) -> bool {
-    if !excl_on() {
-        return false;
+/// `CanonVcsField`
+fn canon_vcs_field(v: &Vcs) -> bool {
+    match v {
+        Vcs::Git { repo_url, branch, subpath } => canon_parsed_vcs(repo_url, branch, subpath),
+        Vcs::Bzr { repo_url, subpath } => canon_parsed_vcs(repo_url, &None, subpath),
+        Vcs::Hg { .. } | Vcs::Svn { .. } => true,
+        Vcs::Cvs { root, .. } => !root.contains(' '),
     }
-    is_other && s.starts_with("commit:")
 }
-/// F-C18-f  Forwarded: `Yes("no")` / `Yes("not-needed")` print as the keywords
-fn excluded_forwarded(f: &Forwarded) -> bool {
-    if !excl_on() {
-        return false;
-    }
-    matches!(f, Forwarded::Yes(s) if s == "no" || s == "not-needed")
+/// `CanonOrigin` (Origin and AppliedUpstream): free text must not start with `commit:`
+fn canon_origin(is_other: bool, s: &str) -> bool {
+    !(is_other && s.starts_with("commit:"))
 }
-/// F-C18-g  parse_origin: without a category, an origin text whose first `, `-piece is a category
-/// keyword is read as that category (fields.rs:138-147), e.g. (None, Other("backport"))
-fn excluded_origin_field(cat: &Option<OriginCategory>, o: &Origin) -> bool {
-    if !excl_on() {
-        return false;
-    }
-    let s = o.to_string();
-    let first = s.splitn(2, ", ").next().unwrap_or("");
-    cat.is_none() && OriginCategory::from_str(first).is_ok()
+/// `CanonForwarded`: the free text of `Yes` is not one of the keywords
+fn canon_forwarded(f: &Forwarded) -> bool {
+    !matches!(f, Forwarded::Yes(s) if s == "no" || s == "not-needed")
 }
-/// F-C18-h  Signature: Display prints `KeyBlock(t)` as "\n"+t but FromStr keeps the whole text, so
-/// no KeyBlock value and no multi-line text round-trips (signature.rs:25 / :50)
-fn excluded_signature(s: &Signature) -> bool {
-    if !excl_on() {
-        return false;
-    }
-    matches!(s, Signature::KeyBlock(_))
+/// `CanonOriginField`: canonical origin; without a category the first `, `-piece of the printed
+/// origin is not a category keyword
+fn canon_origin_field(cat: &Option<OriginCategory>, o: &Origin) -> bool {
+    let (is_other, s) = match o {
+        Origin::Commit(s) => (false, s),
+        Origin::Other(s) => (true, s),
+    };
+    let printed = o.to_string();
+    let first = printed.splitn(2, ", ").next().unwrap_or("");
+    canon_origin(is_other, s) && (cat.is_some() || OriginCategory::from_str(first).is_err())
 }
-/// F-C18-i  BuildProfile: `Enabled("!x")` prints `!x`, which parses as `Disabled("x")`
-fn excluded_build_profile(p: &BuildProfile) -> bool {
-    if !excl_on() {
-        return false;
+/// `CanonSignature`: a key path is a single line (every key block is canonical)
+fn canon_signature(s: &Signature) -> bool {
+    match s {
+        Signature::KeyBlock(_) => true,
+        Signature::KeyPath(p) => !p.to_string_lossy().contains('\n'),
     }
-    matches!(p, BuildProfile::Enabled(s) if s.starts_with('!'))
+}
+/// `CanonBuildProfile`: an enabled profile name does not start with `!`
+fn canon_build_profile(p: &BuildProfile) -> bool {
+    !matches!(p, BuildProfile::Enabled(s) if s.starts_with('!'))
+}
+/// `CanonLicense`: a name is a single line; the name of a named licence is non-empty
+fn canon_license(l: &License) -> bool {
+    match l {
+        License::Name(n) => !n.contains('\n'),
+        License::Text(_) => true,
+        License::Named(n, _) => !n.is_empty() && !n.contains('\n'),
+    }
+}
+/// `CanonIdentity`
+fn canon_identity(name: &str, email: &str) -> bool {
+    name.trim() == name && !name.contains('<') && email.trim() == email
 }
 
 // ------------------------------------------------------------------ records
@@ -533,7 +540,8 @@ macro_rules! checksum_ops {
                 format!("ok {} {} {}", es(&c.$field), c.size, es(&c.filename))
             }
             pub fn oracle(c: &$ty) -> Option<String> {
-                if !(tok(&c.$field) && tok(&c.filename)) {
+                // CanonChecksum
+                if !dom(tok(&c.$field) && tok(&c.filename)) {
                     return None;
                 }
                 let t = c.to_string();
@@ -580,7 +588,8 @@ fn file_show(c: &File) -> String {
     format!("ok {} {} {} {:?} {}", es(&c.md5sum), c.size, es(&c.section), c.priority, es(&c.filename))
 }
 fn file_oracle(c: &File) -> Option<String> {
-    if !(tok(&c.md5sum) && tok(&c.section) && tok(&c.filename)) {
+    // CanonChangesFile
+    if !dom(tok(&c.md5sum) && tok(&c.section) && tok(&c.filename)) {
         return None;
     }
     let t = c.to_string();
@@ -613,47 +622,15 @@ fn ple_show(e: &PackageListEntry) -> String {
         elist(&kv.iter().map(|x| x.1.clone()).collect::<Vec<_>>())
     )
 }
-fn ple_base(e: &PackageListEntry) -> String {
-    format!("{} {} {} {}", e.package, e.package_type, e.section, e.priority)
-}
-/// is `rest` a concatenation of all `pieces` in some order?
-fn is_permutation_concat(rest: &str, pieces: &mut Vec<String>) -> bool {
-    if pieces.is_empty() {
-        return rest.is_empty();
-    }
-    for i in 0..pieces.len() {
-        if rest.starts_with(pieces[i].as_str()) {
-            let p = pieces.remove(i);
-            let ok = is_permutation_concat(&rest[p.len()..], pieces);
-            pieces.insert(i, p);
-            if ok {
-                return true;
-            }
-        }
-    }
-    false
-}
-fn ple_pieces(e: &PackageListEntry) -> Vec<String> {
-    let mut v: Vec<String> = e.extra.iter().map(|(k, v)| format!(" {}={}", k, v)).collect();
-    v.sort();
-    v
-}
 fn ple_oracle(e: &PackageListEntry) -> Option<String> {
-    let dom = tok(&e.package) && tok(&e.package_type) && tok(&e.section) && e.extra.iter().all(|(k, v)| tok(k) && tok(v));
-    if !dom || excluded_ple_equals(e) {
+    if !dom(canon_ple(e)) {
         return None;
     }
     let t = e.to_string();
     match PackageListEntry::from_str(&t) {
         Ok(e2) if &e2 == e => {
             let t2 = e2.to_string();
-            if excluded_ple_order(e) {
-                let base = ple_base(e);
-                if !(t2.starts_with(&base) && is_permutation_concat(&t2[base.len()..], &mut ple_pieces(e))) {
-                    return Some(format!("from_str({:?}).to_string() = {:?} (not even up to the order of the extras)", t, t2));
-                }
-                None
-            } else if t2 != t {
+            if t2 != t {
                 Some(format!("from_str({:?}).to_string() = {:?}", t, t2))
             } else {
                 None
@@ -670,10 +647,7 @@ fn bp_show(p: &BuildProfile) -> String {
     }
 }
 fn bp_oracle(p: &BuildProfile) -> Option<String> {
-    let s = match p {
-        BuildProfile::Enabled(s) | BuildProfile::Disabled(s) => s,
-    };
-    if !tok(s) || excluded_build_profile(p) {
+    if !dom(canon_build_profile(p)) {
         return None;
     }
     let t = p.to_string();
@@ -687,7 +661,7 @@ fn pv_show(v: &ParsedVcs) -> String {
     format!("ok {} {} {}", es(&v.repo_url), eopt(v.branch.as_deref()), eopt(v.subpath.as_deref()))
 }
 fn pv_oracle(v: &ParsedVcs) -> Option<String> {
-    if !(tok(&v.repo_url) && otok(&v.branch) && otok(&v.subpath)) || excluded_vcs(&v.branch, &v.subpath) {
+    if !dom(canon_parsed_vcs(&v.repo_url, &v.branch, &v.subpath)) {
         return None;
     }
     let t = v.to_string();
@@ -709,15 +683,7 @@ fn vcs_show(v: &Vcs) -> String {
     }
 }
 fn vcs_oracle(v: &Vcs) -> Option<String> {
-    let none = None;
-    let (dom, excl) = match v {
-        Vcs::Git { repo_url, branch, subpath } => (tok(repo_url) && otok(branch) && otok(subpath), excluded_vcs(branch, subpath)),
-        Vcs::Bzr { repo_url, subpath } => (tok(repo_url) && otok(subpath), excluded_vcs(&none, subpath)),
-        Vcs::Hg { repo_url } => (tok(repo_url), false),
-        Vcs::Svn { url } => (tok(url), false),
-        Vcs::Cvs { root, module } => (tok(root) && otok(module), false),
-    };
-    if !dom || excl {
+    if !dom(canon_vcs_field(v)) {
         return None;
     }
     let (name, value) = v.to_field();
@@ -742,10 +708,6 @@ fn dopt(f: &str) -> Option<Option<String>> {
     }
 }
 
-fn identity_canon(name: &str, email: &str) -> bool {
-    name.trim() == name && !name.contains('<') && email.trim() == email
-}
-
 fn origin_show(o: &Origin) -> String {
     match o {
         Origin::Commit(s) => format!("Commit {}", es(s)),
@@ -757,7 +719,7 @@ fn origin_oracle(o: &Origin) -> Option<String> {
         Origin::Commit(s) => (false, s),
         Origin::Other(s) => (true, s),
     };
-    if !tok(s) || excluded_origin_other_commit(is_other, s) {
+    if !dom(canon_origin(is_other, s)) {
         return None;
     }
     let t = o.to_string();
@@ -777,7 +739,7 @@ fn applied_oracle(o: &AppliedUpstream) -> Option<String> {
         AppliedUpstream::Commit(s) => (false, s),
         AppliedUpstream::Other(s) => (true, s),
     };
-    if !tok(s) || excluded_origin_other_commit(is_other, s) {
+    if !dom(canon_origin(is_other, s)) {
         return None;
     }
     let t = o.to_string();
@@ -822,11 +784,7 @@ fn origin_field_show(r: &(Option<OriginCategory>, Origin)) -> String {
     )
 }
 fn origin_field_oracle(r: &(Option<OriginCategory>, Origin)) -> Option<String> {
-    let (is_other, s) = match &r.1 {
-        Origin::Commit(s) => (false, s),
-        Origin::Other(s) => (true, s),
-    };
-    if !tok(s) || excluded_origin_other_commit(is_other, s) || excluded_origin_field(&r.0, &r.1) {
+    if !dom(canon_origin_field(&r.0, &r.1)) {
         return None;
     }
     let t = match real_format_origin(r.0, r.1.clone()) {
@@ -852,12 +810,7 @@ fn forwarded_show(f: &Forwarded) -> String {
     }
 }
 fn forwarded_oracle(f: &Forwarded) -> Option<String> {
-    if let Forwarded::Yes(s) = f {
-        if !tok(s) {
-            return None;
-        }
-    }
-    if excluded_forwarded(f) {
+    if !dom(canon_forwarded(f)) {
         return None;
     }
     let t = f.to_string();
@@ -874,15 +827,8 @@ fn license_show(l: &License) -> String {
         License::Named(n, t) => format!("ok Named {} {}", es(n), es(t)),
     }
 }
-/// domain of the licence clause: a name is a non-empty single line; the text is arbitrary
 fn license_oracle(l: &License) -> Option<String> {
-    let name_ok = |n: &str| !n.is_empty() && !n.contains('\n');
-    let dom = match l {
-        License::Name(n) => name_ok(n),
-        License::Text(_) => true,
-        License::Named(n, _) => name_ok(n),
-    };
-    if !dom {
+    if !dom(canon_license(l)) {
         return None;
     }
     let t = l.to_string();
@@ -899,13 +845,8 @@ fn signature_show(s: &Signature) -> String {
     }
 }
 fn signature_oracle(s: &Signature) -> Option<String> {
-    if excluded_signature(s) {
+    if !dom(canon_signature(s)) {
         return None;
-    }
-    if let Signature::KeyPath(p) = s {
-        if !tok(&p.to_string_lossy()) {
-            return None;
-        }
     }
     let t = s.to_string();
     match Signature::from_str(&t) {
@@ -953,7 +894,7 @@ fn handle_parse(ty: &str, a: &[&str]) -> Option<Resp> {
             Some(match debian_control::parse_identity(&s) {
                 Ok((n, e)) => {
                     let mut fail = None;
-                    if identity_canon(n, e) {
+                    if canon_identity(n, e) {
                         let t2 = format!("{} <{}>", n, e);
                         if debian_control::parse_identity(&t2) != Ok((n, e)) {
                             fail = Some(format!("parse_identity({:?}) != ({:?},{:?})", t2, n, e));
@@ -1031,18 +972,7 @@ fn handle_print(ty: &str, a: &[&str]) -> Option<Resp> {
             for (k, v) in ks.iter().zip(vs.iter()) {
                 e.extra.insert(k.clone(), v.clone());
             }
-            let real = e.to_string();
-            let base = ple_base(&e);
-            let pieces = ple_pieces(&e);
-            let mut fail = ple_oracle(&e);
-            // observable: base + pieces in byte order (the real order is unspecified)
-            let obs = if real.starts_with(&base) && is_permutation_concat(&real[base.len()..], &mut pieces.clone()) {
-                es(&format!("{}{}", base, pieces.concat()))
-            } else {
-                fail = Some(format!("to_string() = {:?} is not base + extras", real));
-                format!("MISMATCH {}", es(&real))
-            };
-            Some(Resp::with(obs, fail))
+            Some(Resp::with(es(&e.to_string()), ple_oracle(&e)))
         }
         ("BuildProfile", [k, x]) => {
             let x = ds(x)?;
@@ -1073,7 +1003,7 @@ fn handle_print(ty: &str, a: &[&str]) -> Option<Resp> {
             let (n, e) = (ds(n)?, ds(e)?);
             let t = format!("{} <{}>", n, e);
             let mut fail = None;
-            if identity_canon(&n, &e) && debian_control::parse_identity(&t) != Ok((n.as_str(), e.as_str())) {
+            if canon_identity(&n, &e) && debian_control::parse_identity(&t) != Ok((n.as_str(), e.as_str())) {
                 fail = Some(format!("parse_identity({:?}) = {:?}", t, debian_control::parse_identity(&t)));
             }
             Some(Resp::with(es(&t), fail))
